@@ -450,7 +450,7 @@ inductive Class where
   | leadingQuote     -- unquoted token starting with `'`: may be read as a single-quoted string
   | fieldDelim       -- unquoted token containing the field delimiter
   | keyDelim         -- unquoted key containing the key-value delimiter
-  | delimiters       -- delimiter pair outside the supported shape
+  | delimiters       -- key-value delimiter is a space or a tab
   deriving DecidableEq, Repr
 
 def Class.name : Class → String
@@ -480,11 +480,10 @@ def tokenClass (kd fd : List Char) (isKey : Bool) (s : List Char) : Option Class
   else if needsQuoting s then (if s.contains '\n' then some .newline else none)
   else firstBadUnquoted kd fd isKey true s
 
-/-- delimiter pairs the partial theorem covers: single characters, different, not quotes or
-    backslash, key-value delimiter not white space, field delimiter a space or not white space. -/
-def delimOK (kd fd : Char) : Bool :=
-  kd != fd && !isWs kd && kd != '"' && kd != '\'' && kd != '\\' &&
-  (fd == ' ' || !isWs fd) && fd != '"' && fd != '\'' && fd != '\\'
+/-- key-value delimiters the partial theorem covers: a single character other than space and tab
+    (in lenient mode `space0` would swallow such a delimiter before `tag` sees it). The field
+    delimiter may be any single character. -/
+def delimOK (kd : Char) : Bool := kd != ' ' && kd != '\t'
 
 def firstSome {α β : Type} (f : α → Option β) : List α → Option β
   | [] => none
@@ -495,7 +494,8 @@ def firstSome {α β : Type} (f : α → Option β) : List α → Option β
 /-- classification of an object whose round trip failed: the first key or value (in key order,
     key before value) that has a class. -/
 def objectClass (kd fd : List Char) (o : List (List Char × List Char)) : Option Class :=
-  if o.isEmpty then some .emptyObject
+  if kd = [' '] || kd = ['\t'] then some .delimiters
+  else if o.isEmpty then some .emptyObject
   else firstSome (fun kv =>
     match tokenClass kd fd true kv.1 with
     | some c => some c
